@@ -399,7 +399,9 @@ func freshAt(p *Prog, f *Fn, fl *Flow, use Pt, root types.Object, path string) (
 	// or outside (parameter, captured variable, receiver: shared at entry)?
 	declaredHere := f.Body().Pos() <= root.Pos() && root.Pos() < f.Body().End()
 	if !declaredHere {
-		addStart(fl.Entry(), types.ExprString(ast.NewIdent(path))+" comes from outside the function (parameter, captured variable or field): shared at entry")
+		if !paramFreshAtEveryCall(p, f, root, path) {
+			addStart(fl.Entry(), types.ExprString(ast.NewIdent(path))+" comes from outside the function (parameter, captured variable or field): shared at entry")
+		}
 	}
 	for _, b := range fl.G.Blocks {
 		if !b.Live {
@@ -656,11 +658,18 @@ func escapesIn(p *Prog, f *Fn, n ast.Node, root types.Object, isPrefix, isExt fu
 			if isBuiltin(info, c, "len") || isBuiltin(info, c, "cap") {
 				return true
 			}
-			for _, a := range c.Args {
+			for ai, a := range c.Args {
 				if mentions(a) {
 					// passing the value or its address to a non-bitmask function
 					if tf := p.FnOfObj(fnOrNil(fn)); tf != nil && paramsNotRetained(p, tf) && isBitmaskNamed(info.TypeOf(a)) {
 						continue
+					}
+					// the address of the struct handed to a helper that only reaches through the pointer (t.Matches.Set(…)):
+					// nothing is retained, the struct stays the caller's
+					if u, ok := ast.Unparen(a).(*ast.UnaryExpr); ok && u.Op == token.AND {
+						if tf := p.FnOfObj(fnOrNil(fn)); tf != nil && ptrParamOnlyDereferenced(tf, ai) {
+							continue
+						}
 					}
 					esc = true
 				}
@@ -676,4 +685,116 @@ func fnOrNil(f *types.Func) *types.Func {
 		return types.NewFunc(token.NoPos, nil, "", types.NewSignatureType(nil, nil, nil, nil, nil, false))
 	}
 	return f
+}
+
+var paramFreshBusy = map[string]bool{}
+
+// paramFreshAtEveryCall: root is a pointer parameter of the unexported declared function f, and every call of f in its
+// package passes `&x` for it with x a local of the caller whose corresponding path (x.Matches for t.Matches) is fresh
+// at the call — the helper works on its caller's private copy (addStreamsToMarkTag(&newTag, …)).
+func paramFreshAtEveryCall(p *Prog, f *Fn, root types.Object, path string) bool {
+	if f.Lit != nil || f.Decl == nil || ast.IsExported(f.Decl.Name.Name) {
+		return false
+	}
+	idx := paramIndex(f, root)
+	if idx < 0 {
+		return false
+	}
+	if _, isPtr := root.Type().Underlying().(*types.Pointer); !isPtr {
+		return false
+	}
+	fobj, _ := f.Pkg.TypesInfo.Defs[f.Decl.Name].(*types.Func)
+	if fobj == nil {
+		return false
+	}
+	busyKey := f.Key() + "|" + path
+	if paramFreshBusy[busyKey] {
+		return false
+	}
+	paramFreshBusy[busyKey] = true
+	defer delete(paramFreshBusy, busyKey)
+	suffix := strings.TrimPrefix(path, root.Name())
+	sites, good := 0, 0
+	for _, g := range p.FnList {
+		if g.Pkg != f.Pkg || g.Body() == nil {
+			continue
+		}
+		ginfo := g.Pkg.TypesInfo
+		var gfl *Flow
+		inspectShallow(g.Body(), func(x ast.Node) bool {
+			c, ok := x.(*ast.CallExpr)
+			if !ok || p.Callee(g.Pkg, c) != fobj || idx >= len(c.Args) {
+				return true
+			}
+			sites++
+			u, ok := ast.Unparen(c.Args[idx]).(*ast.UnaryExpr)
+			if !ok || u.Op != token.AND {
+				return true
+			}
+			xo := identObj(ginfo, u.X)
+			if xo == nil {
+				return true
+			}
+			if gfl == nil {
+				gfl = p.Flow(g)
+			}
+			// the CFG node that contains the call
+			var pt Pt
+			found := false
+			for _, b := range gfl.G.Blocks {
+				for i, nd := range b.Nodes {
+					if nd.Pos() <= c.Pos() && c.End() <= nd.End() && !found {
+						pt, found = Pt{b, i}, true
+					}
+				}
+			}
+			if !found {
+				return true
+			}
+			if ok2, _ := freshAt(p, g, gfl, pt, xo, xo.Name()+suffix); ok2 {
+				good++
+			}
+			return true
+		})
+	}
+	return sites > 0 && sites == good
+}
+
+// ptrParamOnlyDereferenced: every mention of the idx-th parameter of the declared function tf is the operand of a field
+// selection (po.F…): the pointer is neither stored, returned, passed on nor captured by a literal that is started with go.
+func ptrParamOnlyDereferenced(tf *Fn, idx int) bool {
+	if tf.Lit != nil || tf.Body() == nil {
+		return false
+	}
+	po := paramObj(tf, idx)
+	if po == nil {
+		return false
+	}
+	info := tf.Pkg.TypesInfo
+	ok := true
+	inspectParents(tf.Body(), func(x ast.Node, ps []ast.Node) bool {
+		id, isID := x.(*ast.Ident)
+		if !isID || info.Uses[id] != po || len(ps) == 0 {
+			return true
+		}
+		if se, isSel := ps[len(ps)-1].(*ast.SelectorExpr); isSel && se.X == ast.Expr(id) {
+			return true
+		}
+		ok = false
+		return true
+	})
+	// nested literals are not visited by inspectParents: any mention inside one counts as retained
+	ast.Inspect(tf.Body(), func(x ast.Node) bool {
+		if lit, isLit := x.(*ast.FuncLit); isLit {
+			ast.Inspect(lit.Body, func(y ast.Node) bool {
+				if id, isID := y.(*ast.Ident); isID && info.Uses[id] == po {
+					ok = false
+				}
+				return true
+			})
+			return false
+		}
+		return true
+	})
+	return ok
 }
